@@ -29,7 +29,12 @@ def run(ctx):
         enters = [n for call in self_calls_in(ex, "_enter_states") for n in cfg_node_of(ex, call)]
         # only the external-transition path: action calls from which an entry is still reachable
         acts = [a for a in acts if any(g.can_reach(a, e, follow_exc=False) for e in enters)]
-        c.floor("R1", f"exit/actions/enter sites in {ex.short}", min(len(exits), len(acts), len(enters)), 1)
+        for kind, f_, msg in roles(ctx, v).defects:
+            if kind == "executor-half":
+                c.ob("R1", False, f_, "executor-performs-exit-and-entry", msg, f_.node)
+        for what, sites in (("exits the source states (_exit_states)", exits), ("runs the transition's actions", acts), ("enters the target (_enter_states)", enters)):
+            if not sites and not roles(ctx, v).defects:
+                c.ob("R1", False, ex, f"executor-step-missing:{what.split()[0]}", f"{ex.short} no longer {what} on the external-transition path", ex.node)
         for a in acts:
             ok = g.always_before(exits, a, follow_exc=False)
             c.ob("R1", ok, ex, "exit<actions", "exit states precede the transition actions on every path" if ok else
